@@ -11,7 +11,9 @@ base64 (payloads arrive classified, see `Payload`), `encoding/xml` (the peer's i
 list of already classified elements), the permission callback (`perm`).
 
 The peer's script is a finite list; its end is EOF (the read error the library gets when
-the peer stops talking).  Write errors and context cancellation are not modelled.
+the peer stops talking).  Write failures and a done context are environments of their own
+(`clientNegE`, `serverLoopW`, `serverLoopC`); a `Step` that panics (the mechanism, or the
+application's permission callback below it) is an outcome of the mechanism (`StepRes.panic`).
 -/
 namespace XmppModel.Sasl
 
@@ -55,10 +57,22 @@ structure PermCall where
   verdict : Bool
   deriving DecidableEq, Repr, Inhabited
 
+/-- what a `Step` that does not return panicked with: Go code that recovers tells these
+apart by a type assertion (`r.(error)`), so a regression can treat them differently -/
+inductive PanicVal
+  | errorVal     -- a value that implements `error` (`panic(err)`, runtime errors)
+  | stringVal    -- a string (`panic("…")`, `panic(fmt.Sprintf(…))`)
+  | otherVal     -- anything else (`panic(42)`)
+  deriving DecidableEq, Repr, Inhabited
+
+/-- `panic` is looked at only when `kind = .otherErr`: a `Step` that panics is a `Step` that
+failed; the field selects how the failure surfaces (the panic travels up through
+`Negotiate`, error `panicked`; or an ordinary error return, `mechErr`), never the outcome. -/
 structure StepRes where
   kind : StepKind
   resp : Bytes := []
   perms : List PermCall := []
+  panic : Option PanicVal := none
   deriving DecidableEq, Repr, Inhabited
 
 /-- A mechanism: the result of the `Step` call that hands it the last element of the list,
@@ -73,6 +87,7 @@ inductive Err
   | notCalled   -- the element never reached the feature (rejected by the feature dispatch)
   | writeErr    -- writing to the connection failed
   | ctxErr      -- the context was cancelled / its deadline passed
+  | panicked    -- a panic raised below `Step` travelled up through `Negotiate`
   deriving DecidableEq, Repr, Inhabited
 
 def Err.toString : Err → String
@@ -83,6 +98,26 @@ def Err.toString : Err → String
   | .notCalled => "notcalled"
   | .writeErr => "write"
   | .ctxErr => "ctx"
+  | .panicked => "panic"
+
+/-- how a failed `Step` (`kind = .otherErr`) surfaces -/
+def stepErr (r : StepRes) : Err :=
+  match r.panic with
+  | some _ => .panicked
+  | none => .mechErr
+
+/-- **What an implementation may do with a panic below `Step`.**  `sasl.go` lets it travel up
+(every entry `false`); a maintainer may equally recover it and return an error instead.  Both
+are fine for C03 as long as the exchange ends there, unauthenticated; `pol v = true` says the
+implementation turns a panic with a value of class `v` into an ordinary error.  The guarded
+mechanism is what the loops of such an implementation see. -/
+def guard (pol : PanicVal → Bool) (m : Mech) : Mech := fun h =>
+  match (m h).panic with
+  | some v => if pol v then { m h with panic := none } else m h
+  | none => m h
+
+def guardCfg (pol : PanicVal → Bool) (cfg : List (String × Mech)) : List (String × Mech) :=
+  cfg.map fun nm => (nm.1, guard pol nm.2)
 
 /-! ## initiating side -/
 
@@ -167,7 +202,7 @@ def clientLoop (mech : Mech) (hist : List Bytes) : List CEv → CRes
       | .more => (clientLoop mech (hist ++ [c]) rest).after [.response ((mech (hist ++ [c])).resp)]
       | .done => (readFinal (hist ++ [c]) rest).after [.response ((mech (hist ++ [c])).resp)]
       | .authnErr => fail .mechErr (hist ++ [c]) 1
-      | .otherErr => fail .mechErr (hist ++ [c]) 1
+      | .otherErr => fail (stepErr (mech (hist ++ [c]))) (hist ++ [c]) 1
   | .success p :: _ =>
     match p.decodeClient with
     | none => fail .b64 hist 1
@@ -176,7 +211,7 @@ def clientLoop (mech : Mech) (hist : List Bytes) : List CEv → CRes
       | .more => fail .unexpected (hist ++ [c]) 1
       | .done => { authn := true, hist := hist ++ [c], consumed := 1 }
       | .authnErr => fail .mechErr (hist ++ [c]) 1
-      | .otherErr => fail .mechErr (hist ++ [c]) 1
+      | .otherErr => fail (stepErr (mech (hist ++ [c]))) (hist ++ [c]) 1
   | .failure b :: _ => fail (failErr b) hist 1
   | .other :: _ => fail .unexpected hist 1
   | .otherNs :: _ => fail .unexpected hist 1
@@ -190,7 +225,7 @@ def clientNeg (cm : List (String × Mech)) (adv : List String) (peer : List CEv)
     if name = "" then fail .nomech [] 0 else
     match (mech []).kind with
     | .authnErr => { fail .mechErr [] 0 with used := some name }
-    | .otherErr => { fail .mechErr [] 0 with used := some name }
+    | .otherErr => { fail (stepErr (mech [])) [] 0 with used := some name }
     | .more =>
       let r := clientLoop mech [] peer
       { r with used := some name, sent := .auth name ((mech []).resp) :: r.sent }
@@ -237,7 +272,7 @@ def clientLoopE (mech : Mech) : CEnv → Nat → List Bytes → List CEv → CRe
             (readFinal (hist ++ [c]) rest).after [.response ((mech (hist ++ [c])).resp)]
           else fail .writeErr (hist ++ [c]) 1
         | .authnErr => fail .mechErr (hist ++ [c]) 1
-        | .otherErr => fail .mechErr (hist ++ [c]) 1
+        | .otherErr => fail (stepErr (mech (hist ++ [c]))) (hist ++ [c]) 1
     | .success p :: _ =>
       match p.decodeClient with
       | none => fail .b64 hist 1
@@ -246,7 +281,7 @@ def clientLoopE (mech : Mech) : CEnv → Nat → List Bytes → List CEv → CRe
         | .more => fail .unexpected (hist ++ [c]) 1
         | .done => { authn := true, hist := hist ++ [c], consumed := 1 }
         | .authnErr => fail .mechErr (hist ++ [c]) 1
-        | .otherErr => fail .mechErr (hist ++ [c]) 1
+        | .otherErr => fail (stepErr (mech (hist ++ [c]))) (hist ++ [c]) 1
     | .failure b :: _ => fail (failErr b) hist 1
     | .other :: _ => fail .unexpected hist 1
     | .otherNs :: _ => fail .unexpected hist 1
@@ -260,7 +295,7 @@ def clientNegE (env : CEnv) (cm : List (String × Mech)) (adv : List String) (pe
     if name = "" then fail .nomech [] 0 else
     match (mech []).kind with
     | .authnErr => { fail .mechErr [] 0 with used := some name }
-    | .otherErr => { fail .mechErr [] 0 with used := some name }
+    | .otherErr => { fail (stepErr (mech [])) [] 0 with used := some name }
     | .more =>
       if env.canWrite then
         let r := clientLoopE mech env.wrote 0 [] peer
@@ -343,7 +378,7 @@ def sstep (name : String) (mech : Mech) (hist : List Bytes) (p : Payload) : SOut
         { sfail .authnErr [.failure "not-authorized"] with
           perms := (mech (hist ++ [c])).perms, used := some name, hist := hist ++ [c] }
     | .otherErr => .stop
-        { sfail .mechErr [] with
+        { sfail (stepErr (mech (hist ++ [c]))) [] with
           perms := (mech (hist ++ [c])).perms, used := some name, hist := hist ++ [c] }
     | .more => .cont ⟨name, mech, hist ++ [c]⟩ (mech (hist ++ [c])).resp (mech (hist ++ [c])).perms
     | .done => .stop
@@ -408,6 +443,40 @@ def serverSessionW (cfg : List (String × Mech)) (budget : Nat) : List SEv → S
   | .otherNs :: _ => { err := .notCalled, consumed := 1 }
   | peer => serverLoopW cfg none budget peer
 
+/-! ### the receiving side and the negotiation context
+
+`negotiateServer` gets the context of the negotiation.  The code as it is never looks at it
+(`looks = false`); an implementation may equally test it at the top of every iteration of its
+loop, as the initiating side does, and give up with the context's error (`looks = true`).
+What it must not do is leave the loop any other way: the code below the loop is the success
+tail.  `cancelAt = some k`: the context is done from the `k`-th loop test on (the test before
+the first element is number 0). -/
+structure SCtx where
+  looks : Bool := false
+  cancelAt : Option Nat := none
+  deriving DecidableEq, Repr
+
+def SCtx.stops (c : SCtx) (i : Nat) : Bool :=
+  c.looks && (match c.cancelAt with
+    | some k => decide (k ≤ i)
+    | none => false)
+
+def serverLoopC (cfg : List (String × Mech)) (ctx : SCtx) : Option SCur → Nat → List SEv → SRes
+  | cur, i, peer =>
+    if ctx.stops i then { err := .ctxErr, used := cur.map (·.name), hist := (cur.map (·.hist)).getD [] } else
+    match peer with
+    | [] => { err := .eof, used := cur.map (·.name), hist := (cur.map (·.hist)).getD [] }
+    | ev :: rest =>
+      match sevent cfg cur ev with
+      | .stop r => r
+      | .cont c resp perms => (serverLoopC cfg ctx (some c) (i + 1) rest).after [.challenge resp] perms
+
+def serverSessionC (cfg : List (String × Mech)) (ctx : SCtx) : List SEv → SRes
+  | [] => { err := .notCalled }
+  | .space :: _ => { err := .notCalled, consumed := 1 }
+  | .otherNs :: _ => { err := .notCalled, consumed := 1 }
+  | peer => serverLoopC cfg ctx none 0 peer
+
 /-! ## many sessions on one feature value
 
 A receiving entity serves all its connections with one `xmpp.SASLServer(…)` value.  The model
@@ -468,6 +537,17 @@ def plainServer (perm : Bytes → Bytes → Bytes → Bool) : Mech := fun hist =
     | [ident, user, pass] =>
       if perm user pass ident then { kind := .done, perms := [⟨user, pass, ident, true⟩] }
       else { kind := .authnErr, perms := [⟨user, pass, ident, false⟩] }
+    | _ => { kind := .otherErr }
+  | _ => { kind := .otherErr }
+
+/-- PLAIN on the receiving side when the application's permission callback panics (its user
+store is unreachable …) instead of returning a verdict: the callback is reached for a
+well-formed `identity NUL username NUL password` only, no verdict is recorded -/
+def plainServerPanics (v : PanicVal) : Mech := fun hist =>
+  match hist with
+  | [c] =>
+    match splitZero c with
+    | [_, _, _] => { kind := .otherErr, panic := some v }
     | _ => { kind := .otherErr }
   | _ => { kind := .otherErr }
 
